@@ -61,7 +61,8 @@ HIST = ("Histories are generated as plain data (lattice plug-in engine configura
         "deterministic runner that owns the completion order; a reference model kept by the harness is compared after every event. Sampled. ")
 ENUM = ("In addition small systems (3-5 ensembles, 1-3 workers, sh-only / wf / zero-swap move sets) are explored exhaustively in memory: every "
         "scheduler draw (scripted rgen.choice/random), every completion order and every synthesised move outcome (reject / accept with each "
-        "admissible weight row), to closure over (weight matrix, busy marks, in-flight set) states, the same invariants evaluated in every state. ")
+        "admissible weight row), to closure over (weight matrix, busy marks, in-flight set) states, the same invariants evaluated in every state; "
+        "in every state the run is also killed and restarted from what write_toml last wrote (restart record = jobs in flight, re-issued first and in order; the state reached joins the exploration). ")
 add(
     "C03",
     "model-based property testing over generated histories/schedules (Hypothesis), deterministic runner owning the completion order",
@@ -100,7 +101,9 @@ add(
     "(seed, schedule, kill points) twice gives identical files. Sampled; plug-in lattice engine (exact integers at six decimals). TurtleMD part: the "
     "repository's double-well example (Langevin, xyz files, order parameter rounded to six decimals, sh/wf, caps incl. 0.0, delete_old) straight vs. chains. "
     "Fresh-interpreter part: the same input run twice through infretis.bin.internalrun (real scheduler and process pool) in new interpreters with different "
-    "PYTHONHASHSEED, single- and two-engine layouts: identical files.",
+    "PYTHONHASHSEED, single- and two-engine layouts: identical files. Exhaustive part (checks/enumsys.py): in every reachable state of small systems (3-5 ensembles, "
+    "1-3 workers) the run is killed and restarted in memory from the last restart record: the record lists exactly the jobs in flight, they are re-issued first and in order, "
+    "and the states reached are the ones reachable without a restart (closure), so chains of kills of any length are covered for these systems.",
     "allowmaxlength=true for straight-vs-chain, chain-vs-chain otherwise (documented loss of the 'initial path' marker).",
 )
 add(
